@@ -11,6 +11,7 @@
 From Coq Require Import ZArith List Bool.
 Import ListNotations.
 From GV Require Import Common.Wire.
+From GV Require gen.Gen_viewer gen.Gen_picker.
 Open Scope Z_scope.
 
 (* ------------------------------------------------------------------ generic *)
@@ -19,7 +20,13 @@ Definition zremove (x : Z) (l : list Z) : list Z := filter (fun y => negb (y =? 
 Definition isnil {A} (l : list A) : bool := match l with [] => true | _ => false end.
 
 (* ================================================================== part 1 *)
-Inductive layer := LData (d : Z) | LSub (s d g : Z).
+(* a layer = the dataset or subset it shows.  The type is the one declared in the preamble of the translated code
+   (coq/gen/Gen_viewer.v, regenerated from glue/viewers/common/viewer.py on every run), so that the hand model and the
+   translated functions of part 5 speak about the same values:
+     Inductive layer := LData (d : Z) | LSub (s d g : Z). *)
+Notation layer := Gen_viewer.layer.
+Notation LData := Gen_viewer.LData.
+Notation LSub := Gen_viewer.LSub.
 
 Definition layer_eqb (a b : layer) : bool :=
   match a, b with
@@ -251,6 +258,92 @@ Fixpoint run_d (ops : list dop) (p : vstate * option (list layer)) (given : list
 
 Definition no_blocks (ops : list dop) : bool := forallb (fun x => match x with Plain _ => true | _ => false end) ops.
 
+(* ================================================================== part 5: the TRANSLATED viewer as a second machine
+   coq/gen/Gen_viewer.v (regenerated from glue/viewers/common/viewer.py, glue/core/layer_artist.py and
+   glue/viewers/common/layer_artist.py on every run) provides Viewer.add_data / remove_data / add_subset / remove_subset /
+   remove_layer, the hub handlers with the subscription table of register_to_hub, the two sync callbacks and the container,
+   all over its own heap.  Here: the environment (the collection, as in part 1, sending the hub messages the real collection
+   sends) and the wire.  Definitions only; C18/GenEquiv*.v prove that this machine makes the steps of part 1. *)
+
+Definition gfuel (h : Gen_viewer.heap) : nat := S (S (S (S (length (Gen_viewer.h_artists h) + length (Gen_viewer.h_layers h))))).
+Definition K (h : Gen_viewer.heap) : Gen_viewer.callbacks := Gen_viewer.knot (gfuel h).
+
+(* the viewer reads the collection through session.data_collection and data.subsets *)
+Definition load_coll (c : vstate) (h : Gen_viewer.heap) : Gen_viewer.heap :=
+  Gen_viewer.mkHeap (Gen_viewer.h_artists h) (Gen_viewer.h_layers h) (dc c) (fun d => map lay (dsubs (subs c) d)) (Gen_viewer.h_size h) (Gen_viewer.h_next h)
+           (Gen_viewer.h_delay h) (Gen_viewer.h_old h) (Gen_viewer.h_ignore_change h) (Gen_viewer.h_ignore_empty h) (Gen_viewer.h_warn h) (Gen_viewer.h_err h) (Gen_viewer.h_trace h).
+
+(* hub.broadcast(cls(x)) as far as the viewer is concerned (attribute code 1: not 'style') *)
+Definition send (cls : Gen_viewer.mclass) (x : layer) (h : Gen_viewer.heap) : Gen_viewer.heap := Gen_viewer.deliver (K h) (Gen_viewer.mkMsg cls x 1 false) h.
+
+Definition heap_arts (h : Gen_viewer.heap) : list layer := map Gen_viewer.art_layer (Gen_viewer.h_artists h).
+Definition heap_sls (h : Gen_viewer.heap) : list layer := map Gen_viewer.ls_layer (Gen_viewer.h_layers h).
+
+(* the collection part of a vstate (arts / sls unused) paired with the heap of the translated viewer *)
+Definition gstep (o : op) (p : vstate * Gen_viewer.heap) : (vstate * Gen_viewer.heap) * Z :=
+  let c := fst p in
+  let h := snd p in
+  match o with
+  | Append d =>
+      if zmem d (dc c) then (p, 0) else
+      let nw := new_subs (next c) (map (fun g => (d, g)) (groups c)) in
+      let c1 := mkV (fixed c) (dc c ++ [d]) (groups c) (subs c ++ nw) (next c + Z.of_nat (length nw)) [] [] in
+      ((c1, fold_left (fun h s => send Gen_viewer.C_SubsetCreateMessage (lay s) h) nw (load_coll c1 h)), 0)
+  | Remove d =>
+      if negb (zmem d (dc c)) then (p, 0) else
+      let sb := if fixed c
+                then filter (fun s => negb ((s_d s =? d) && s_live s)) (subs c)
+                else map (fun s => if s_d s =? d then unlive s else s) (subs c) in
+      let gone := if fixed c then filter (fun s => (s_d s =? d) && s_live s) (subs c) else [] in
+      let c1 := mkV (fixed c) (zremove d (dc c)) (groups c) sb (next c) [] [] in
+      ((c1, fold_left (fun h s => send Gen_viewer.C_SubsetDeleteMessage (lay s) h) gone
+                      (send Gen_viewer.C_DataCollectionDeleteMessage (LData d) (load_coll c1 h))), 0)
+  | NewGroup g =>
+      if zmem g (groups c) then (p, 0) else
+      let nw := new_subs (next c) (map (fun d => (d, g)) (dc c)) in
+      let c1 := mkV (fixed c) (dc c) (groups c ++ [g]) (subs c ++ nw) (next c + Z.of_nat (length nw)) [] [] in
+      ((c1, fold_left (fun h s => send Gen_viewer.C_SubsetCreateMessage (lay s) h) nw (load_coll c1 h)), 0)
+  | RemoveGroup g =>
+      if negb (zmem g (groups c)) then (p, 0) else
+      let dead := filter (fun s => (s_g s =? g) && s_live s) (subs c) in
+      let c1 := mkV (fixed c) (dc c) (zremove g (groups c))
+                    (filter (fun s => negb ((s_g s =? g) && s_live s)) (subs c)) (next c) [] [] in
+      ((c1, fold_left (fun h s => send Gen_viewer.C_SubsetDeleteMessage (lay s) h) dead (load_coll c1 h)), 0)
+  | AddData d =>
+      match Gen_viewer.Viewer_add_data (K h) (LData d) h with
+      | Gen_viewer.Done _ h' => ((c, h'), 0)
+      | Gen_viewer.Raised _ h' => ((c, h'), 1)
+      end
+  | RemoveData d => ((c, Gen_viewer.Viewer_remove_data (K h) (LData d) h), 0)
+  | AddSubset s d g =>
+      if zmem d (dc c) && sub_known (subs c) s d g
+      then ((c, Gen_viewer.heap_of (Gen_viewer.Viewer_add_subset (K h) (LSub s d g) h)), 0) else (p, 2)
+  | RemoveLayer d => ((c, Gen_viewer.Viewer_remove_layer (K h) (LData d) h), 0)
+  | SaveRestore =>
+      let c1 := mkV (fixed c) (dc c) (groups c) (filter (fun s => zmem (s_d s) (dc c)) (subs c)) (next c) [] [] in
+      ((c1, load_coll c1 h), 0)
+  end.
+
+(* user-level delay_callback(viewer.state, 'layers') blocks: echo's enter / exit *)
+Definition gdstep (x : dop) (p : vstate * Gen_viewer.heap) : (vstate * Gen_viewer.heap) * Z :=
+  match x with
+  | Plain o => gstep o p
+  | LBegin => ((fst p, if Gen_viewer.h_delay (snd p) =? 0 then Gen_viewer.delay_enter (snd p) else snd p), 0)
+  | LEnd => ((fst p, if Gen_viewer.h_delay (snd p) =? 0 then snd p else Gen_viewer.delay_exit (K (snd p)) (snd p)), 0)
+  end.
+
+Fixpoint grun (ops : list dop) (p : vstate * Gen_viewer.heap) (given : list Z) : (vstate * Gen_viewer.heap) * list Z :=
+  match ops with
+  | [] => (p, given)
+  | x :: t => grun t (fst (gdstep x p)) (dghost x (fst p) given)
+  end.
+
+Definition ginit (fx : bool) : vstate * Gen_viewer.heap :=
+  (init_v fx, Gen_viewer.mkHeap [] [] [] (fun _ => []) (fun _ => 0) 0 0 [] false false true false []).
+
+(* the observable viewer state of the translated machine, in the shape of part 1 *)
+Definition gview (p : vstate * Gen_viewer.heap) : vstate := set_v (fst p) (heap_arts (snd p)) (heap_sls (snd p)).
+
 (* ================================================================== part 2 *)
 Inductive choice := CNone | CSep (k d : Z) | CAtt (c : Z).
 
@@ -449,6 +542,99 @@ Fixpoint run_p (ops : list pop) (st : pstate) : pstate :=
 Definition init_p (ds : list dinfo) (fl : flags) (defidx : Z) (hasdc : bool) : pstate :=
   mkP ds fl [] [] None defidx hasdc false [] (map di_id ds).
 
+(* ================================================================== part 6: the TRANSLATED ComponentIDComboHelper
+   coq/gen/Gen_picker.v (regenerated from glue/core/data_combo_helper.py on every run) provides refresh (the list handed to
+   `self.choices = ..`), _filter_msg and the subscription table of register_to_hub (dispatch).  The machine below is part 2
+   with `refresh` and `handle` replaced by them; echo's _choices_updated, the hub's delay queue and the dataset mutations
+   stay as in part 2.  Definitions only; C18/GenPicker.v proves that the two machines agree. *)
+Definition to_cid_main (p : Z * Z) : Gen_picker.gcid := Gen_picker.mkCid (fst p) (snd p) false.
+Definition to_cid_der (p : Z * Z) : Gen_picker.gcid := Gen_picker.mkCid (fst p) 0 true.      (* owned by the dataset: cid.parent is data *)
+Definition to_cid_coord (c : Z) : Gen_picker.gcid := Gen_picker.mkCid c 0 false.
+Definition to_gdata (di : dinfo) : Gen_picker.gdata :=
+  Gen_picker.mkData (di_id di) (Some 1) (map to_cid_main (di_main di)) (map to_cid_der (di_der di))
+                    (map to_cid_coord (di_pix di)) (map to_cid_coord (di_wor di)).
+Definition gdatas (ds : list dinfo) (datas : list Z) : list Gen_picker.gdata :=
+  flat_map (fun d => match find_d d ds with Some di => [to_gdata di] | None => [] end) datas.
+Definition helper_of (st : pstate) : Gen_picker.helper :=
+  Gen_picker.mkHelper (f_none (p_fl st)) (f_num (p_fl st)) (f_dt (p_fl st)) (f_cat (p_fl st)) (f_pix (p_fl st)) (f_wor (p_fl st))
+                      (f_der (p_fl st)) (gdatas (p_ds st) (p_datas st)) false (p_hasdc st) 0.
+Definition of_gchoice (c : Gen_picker.gchoice) : choice :=
+  match c with
+  | Gen_picker.GNone => CNone
+  | Gen_picker.GSepLabel d => CSep 1 d
+  | Gen_picker.GSepText k => CSep k 0
+  | Gen_picker.GAtt a => CAtt a
+  end.
+
+Definition grefresh (st : pstate) : pstate :=
+  let ch := map of_gchoice (Gen_picker.ComponentIDComboHelper_refresh (helper_of st)) in
+  mkP (p_ds st) (p_fl st) (p_datas st) ch (choices_updated (p_def st) ch (p_sel st))
+      (p_def st) (p_hasdc st) (p_delay st) (p_pending st) (p_dc st).
+
+(* the hub hands a message to the helper: class and dataset -> the entry of register_to_hub, its filter, its handler
+   (_remove_data = remove_data(msg.data): translated as ComponentIDComboHelper_remove_data, restated in the machine) *)
+Definition ghandle (m : pmsg) (st : pstate) : pstate :=
+  match m with
+  | MChanged d =>
+      match Gen_picker.dispatch (helper_of st) Gen_picker.C_ComponentsChangedMessage d with
+      | Some Gen_picker.H_refresh => grefresh st
+      | _ => st
+      end
+  | MDcRemove d =>
+      match Gen_picker.dispatch (helper_of st) Gen_picker.C_DataCollectionDeleteMessage d with
+      | Some Gen_picker.H__remove_data => if zmem d (p_datas st) then grefresh (with_datas st (zremove d (p_datas st))) else st
+      | _ => st
+      end
+  end.
+
+(* part 2's pstep over an arbitrary refresh R and message handler Hd *)
+Definition post_with (Hd : pmsg -> pstate -> pstate) (m : pmsg) (st : pstate) : pstate :=
+  if p_delay st then with_queue st true (p_pending st ++ [m]) else Hd m st.
+Definition pstep_with (R : pstate -> pstate) (Hd : pmsg -> pstate -> pstate) (o : pop) (st : pstate) : pstate * Z :=
+  match o with
+  | PAppend d => if zmem d (p_datas st) then (st, 0) else (R (with_datas st (p_datas st ++ [d])), 0)
+  | PRemove d => if zmem d (p_datas st) then (R (with_datas st (zremove d (p_datas st))), 0) else (st, 0)
+  | PSetMultiple l => (R (with_datas st (dedup l [])), 0)
+  | PClear => (R (with_datas st []), 0)
+  | PFlag k b => (R (with_fl st (set_flag (p_fl st) k b)), 0)
+  | PSelect c => if sel_in (Some c) (p_ch st) then (with_sel st (Some c), 0) else (st, 1)
+  | DAddMain d c k =>
+      (post_with Hd (MChanged d) (with_ds st (upd_d d (fun di => mkD (di_id di) (di_main di ++ [(c, k)]) (di_der di) (di_pix di) (di_wor di)) (p_ds st))), 0)
+  | DAddDer d c dep =>
+      (post_with Hd (MChanged d) (with_ds st (upd_d d (fun di => mkD (di_id di) (di_main di) (di_der di ++ [(c, dep)]) (di_pix di) (di_wor di)) (p_ds st))), 0)
+  | DRemoveComp d c =>
+      match dependents d c (p_ds st) with
+      | [] => (post_with Hd (MChanged d) (with_ds st (upd_d d (rm_comp c) (p_ds st))), 0)
+      | a :: rest =>
+        let s1 := post_with Hd (MChanged d) (with_ds st (upd_d d (fun di => rm_comp a (rm_comp c di)) (p_ds st))) in
+        let s2 := fold_left (fun s a' => post_with Hd (MChanged d) (with_ds s (upd_d d (rm_comp a') (p_ds s)))) rest s1 in
+        (post_with Hd (MChanged d) (with_ds s2 (upd_d d (fun di => di) (p_ds s2))), 0)
+      end
+  | DReorder d l =>
+      (post_with Hd (MChanged d) (with_ds st (upd_d d (fun di => mkD (di_id di) (reorder l (di_main di)) (di_der di) (di_pix di) (di_wor di)) (p_ds st))), 0)
+  | DRename d c => (st, 0)
+  | DcRemove d =>
+      if zmem d (p_dc st)
+      then (post_with Hd (MDcRemove d) (mkP (p_ds st) (p_fl st) (p_datas st) (p_ch st) (p_sel st) (p_def st) (p_hasdc st)
+                                          (p_delay st) (p_pending st) (zremove d (p_dc st))), 0)
+      else (st, 0)
+  | DelayBegin => (with_queue st true (p_pending st), 0)
+  | DelayEnd => (fold_left (fun s m => Hd m s) (p_pending st) (with_queue st false []), 0)
+  end.
+Definition gpstep : pop -> pstate -> pstate * Z := pstep_with grefresh ghandle.
+Fixpoint run_gp (ops : list pop) (st : pstate) : pstate :=
+  match ops with
+  | [] => st
+  | o :: t => run_gp t (fst (gpstep o st))
+  end.
+(* every dataset the history hands to the helper is one of the datasets of the configuration *)
+Definition pops_known (ids : list Z) (ops : list pop) : bool :=
+  forallb (fun o => match o with
+                    | PAppend d => zmem d ids
+                    | PSetMultiple l => forallb (fun d => zmem d ids) l
+                    | _ => true
+                    end) ops.
+
 (* ================================================================== part 3 *)
 (* ManualDataComboHelper (manual = true: own list, collection removal prunes it) and
    DataCollectionComboHelper (manual = false: the choices are the collection itself) *)
@@ -489,6 +675,40 @@ Fixpoint run_dp (ops : list dpop) (st : dpstate) : dpstate :=
   end.
 Definition init_dp (manual : bool) (dcl : list Z) : dpstate :=
   let st := mkDP manual dcl [] [] None in if manual then st else dp_refresh st.
+
+(* ================================================================== part 7: the TRANSLATED dataset pickers
+   ManualDataComboHelper.append_data / remove_data / set_multiple_data, unique_data_iter, BaseDataComboHelper.refresh /
+   _on_data_update and the two subscription tables (coq/gen/Gen_picker.v, second half) in place of the hand-written cases of
+   part 3; the collection and echo's selection rule stay as in part 3.  C18/GenDPicker.v proves the two machines equal. *)
+Definition dh_of (st : dpstate) : Gen_picker.dhelper := Gen_picker.mkDH (dp_source st) 0.
+(* the helper after a translated procedure: its dataset list (a manual helper owns it), and a refresh of the choices if one was made *)
+Definition dp_apply (st : dpstate) (h' : Gen_picker.dhelper) : dpstate :=
+  let st1 := if dp_manual st then mkDP true (dp_dc st) (Gen_picker.dh_datasets h') (dp_ch st) (dp_sel st) else st in
+  if 0 <? Gen_picker.dh_refreshes h' then dp_refresh st1 else st1.
+Definition dp_deliver (st : dpstate) (c : Gen_picker.dclass) (m : Gen_picker.dmsg) : dpstate :=
+  dp_apply st (if dp_manual st then Gen_picker.ManualDataComboHelper_deliver (dh_of st) c m
+               else Gen_picker.DataCollectionComboHelper_deliver (dh_of st) c m).
+
+Definition gdpstep (o : dpop) (st : dpstate) : dpstate * Z :=
+  match o with
+  | DPAppend d => if dp_manual st then (dp_apply st (Gen_picker.ManualDataComboHelper_append_data (dh_of st) d true), 0) else (st, 0)
+  | DPRemove d => if dp_manual st then (dp_apply st (Gen_picker.ManualDataComboHelper_remove_data (dh_of st) d), 0) else (st, 0)
+  | DPSetMultiple l => if dp_manual st then (dp_apply st (Gen_picker.ManualDataComboHelper_set_multiple_data (dh_of st) l), 0) else (st, 0)
+  | DPSelect d => if sel_in (Some d) (dp_ch st) then (mkDP (dp_manual st) (dp_dc st) (dp_list st) (dp_ch st) (Some d), 0) else (st, 1)
+  | DPDcAdd d =>
+      if zmem d (dp_dc st) then (st, 0) else
+      let st1 := mkDP (dp_manual st) (dp_dc st ++ [d]) (dp_list st) (dp_ch st) (dp_sel st) in
+      (dp_deliver st1 Gen_picker.D_DataCollectionAddMessage (Gen_picker.mkDMsg true (-1) d false), 0)
+  | DPDcRemove d =>
+      if negb (zmem d (dp_dc st)) then (st, 0) else
+      let st1 := mkDP (dp_manual st) (zremove d (dp_dc st)) (dp_list st) (dp_ch st) (dp_sel st) in
+      (dp_deliver st1 Gen_picker.D_DataCollectionDeleteMessage (Gen_picker.mkDMsg true (-1) d false), 0)
+  end.
+Fixpoint run_gdp (ops : list dpop) (st : dpstate) : dpstate :=
+  match ops with
+  | [] => st
+  | o :: t => run_gdp t (fst (gdpstep o st))
+  end.
 
 (* ================================================================== part 4 *)
 (* image viewer axes, as axis numbers of the reference dataset (n dimensions).
@@ -619,6 +839,64 @@ Fixpoint trace_v (known : list Z) (ops : list dop) (p : vstate * option (list la
     T 0 [enc_vstate known status (fst p'); zs given'] :: trace_v known t p' given'
   end.
 
+Definition enc_event (e : Gen_viewer.event) : tree :=
+  match e with
+  | Gen_viewer.EDrawLegend => T 1 []
+  | Gen_viewer.EUpdate l => T 2 [T 0 [leaf (layer_data l); leaf (match l with LData _ => -1 | LSub _ _ g => g end)]]
+  | Gen_viewer.EArtistRemove l => T 3 [T 0 [leaf (layer_data l); leaf (match l with LData _ => -1 | LSub _ _ g => g end)]]
+  | Gen_viewer.EOnComponentsChanged l => T 4 [T 0 [leaf (layer_data l); leaf (match l with LData _ => -1 | LSub _ _ g => g end)]]
+  | Gen_viewer.EWarn => T 5 []
+  end.
+Definition clear_trace (h : Gen_viewer.heap) : Gen_viewer.heap :=
+  Gen_viewer.mkHeap (Gen_viewer.h_artists h) (Gen_viewer.h_layers h) (Gen_viewer.h_dc h) (Gen_viewer.h_subsets h) (Gen_viewer.h_size h) (Gen_viewer.h_next h)
+           (Gen_viewer.h_delay h) (Gen_viewer.h_old h) (Gen_viewer.h_ignore_change h) (Gen_viewer.h_ignore_empty h) (Gen_viewer.h_warn h) (Gen_viewer.h_err h) [].
+
+(* wire-level operations of the translated machine only: a history step, or the update messages the hub carried during one
+   step of the implementation (SubsetUpdateMessage 1, NumericalDataChangedMessage 2, ComponentsChangedMessage 3,
+   ExternallyDerivableComponentsChangedMessage 4; sender = dataset d (g < 0) or the k-th subset of d in group g; attribute code
+   0 = 'style'; has the message a components_changed attribute).  They have no structural effect (the hand model does not see
+   them); the translated _update_subset / _update_data / _update_data_numerical answer with artist.update() calls on the trace. *)
+Inductive gwop := GD (x : dop) | GMsgs (ms : list (Z * (Z * Z * Z) * Z * bool)).
+Definition dec_gmsg (t : tree) : Z * (Z * Z * Z) * Z * bool :=
+  match t with
+  | T cls [T d _; T g _; T k _; T attr _; T cc _] => (cls, (d, g, k), attr, negb (cc =? 0))
+  | _ => (0, (0, 0, 0), 0, false)
+  end.
+Definition dec_gwop (t : tree) : gwop :=
+  match t with
+  | T 12 ms => GMsgs (map dec_gmsg ms)
+  | _ => GD (dec_dop t)
+  end.
+Definition gclass_of (c : Z) : Gen_viewer.mclass :=
+  match c with
+  | 1 => Gen_viewer.C_SubsetUpdateMessage
+  | 2 => Gen_viewer.C_NumericalDataChangedMessage
+  | 3 => Gen_viewer.C_ComponentsChangedMessage
+  | _ => Gen_viewer.C_ExternallyDerivableComponentsChangedMessage
+  end.
+Definition resolve_layer (sb : list sub) (dgk : Z * Z * Z) : layer :=
+  let '(d, g, k) := dgk in
+  if g <? 0 then LData d else match find_sub sb d g k with Some x => lay x | None => LSub (-1) d g end.
+Definition deliver_update (c : vstate) (m : Z * (Z * Z * Z) * Z * bool) (h : Gen_viewer.heap) : Gen_viewer.heap :=
+  let '(cls, dgk, attr, cc) := m in
+  Gen_viewer.deliver (K h) (Gen_viewer.mkMsg (gclass_of cls) (resolve_layer (subs c) dgk) attr cc) h.
+
+Fixpoint gtrace_v (known : list Z) (ops : list gwop) (p : vstate * Gen_viewer.heap) (given : list Z) : list tree :=
+  match ops with
+  | [] => []
+  | GD x :: t =>
+    let x' := resolve_dop (fst p) x in
+    let p0 := (fst p, clear_trace (snd p)) in
+    let '(p', status) := gdstep x' p0 in
+    let given' := dghost x' (fst p) given in
+    T 0 [enc_vstate known status (gview p'); zs given';
+         T (of_bool (Gen_viewer.h_err (snd p'))) (map enc_event (Gen_viewer.h_trace (snd p')))] :: gtrace_v known t p' given'
+  | GMsgs ms :: t =>
+    let p' := (fst p, fold_left (fun h m => deliver_update (fst p) m h) ms (clear_trace (snd p))) in
+    T 0 [enc_vstate known 0 (gview p'); zs given;
+         T (of_bool (Gen_viewer.h_err (snd p'))) (map enc_event (Gen_viewer.h_trace (snd p')))] :: gtrace_v known t p' given
+  end.
+
 Definition dec_pair (t : tree) : Z * Z := (tag (kid 0 t), tag (kid 1 t)).
 Definition dec_dinfo (t : tree) : dinfo :=
   mkD (tag (kid 0 t)) (map dec_pair (kids (kid 1 t))) (map dec_pair (kids (kid 2 t))) (to_zs (kid 3 t)) (to_zs (kid 4 t)).
@@ -658,6 +936,12 @@ Fixpoint trace_p (ops : list pop) (st : pstate) : list tree :=
   | o :: t => let '(st', status) := pstep o st in enc_pstate status st' :: trace_p t st'
   end.
 
+Fixpoint gtrace_p (ops : list pop) (st : pstate) : list tree :=
+  match ops with
+  | [] => []
+  | o :: t => let '(st', status) := gpstep o st in enc_pstate status st' :: gtrace_p t st'
+  end.
+
 Definition dec_dpop (t : tree) : dpop :=
   match t with
   | T 1 [T d _] => DPAppend d
@@ -673,6 +957,13 @@ Fixpoint trace_dp (ops : list dpop) (st : dpstate) : list tree :=
   | [] => []
   | o :: t => let '(st', status) := dpstep o st in
               T status [T 0 (map enc_choice (dp_ch st')); of_opt_z (dp_sel st')] :: trace_dp t st'
+  end.
+
+Fixpoint gtrace_dp (ops : list dpop) (st : dpstate) : list tree :=
+  match ops with
+  | [] => []
+  | o :: t => let '(st', status) := gdpstep o st in
+              T status [T 0 (map enc_choice (dp_ch st')); of_opt_z (dp_sel st')] :: gtrace_dp t st'
   end.
 
 Definition dec_aop (t : tree) : aop :=
@@ -698,5 +989,9 @@ Definition run_case (t : tree) : tree :=
       T 0 (trace_p (map dec_pop ops) (init_p (map dec_dinfo ds) (dec_flags fl) defidx (nz hasdc)))
   | T 3 [manual; dcl; T _ ops] => T 0 (trace_dp (map dec_dpop ops) (init_dp (nz manual) (to_zs dcl)))
   | T 4 [T n _; T _ ops] => T 0 (trace_a (map dec_aop ops) (init_a n))
+  | T 7 [manual; dcl; T _ ops] => T 0 (gtrace_dp (map dec_dpop ops) (init_dp (nz manual) (to_zs dcl)))     (* the translated dataset pickers *)
+  | T 6 [T _ ds; fl; T defidx _; hasdc; T _ ops] =>      (* the translated ComponentIDComboHelper *)
+      T 0 (gtrace_p (map dec_pop ops) (init_p (map dec_dinfo ds) (dec_flags fl) defidx (nz hasdc)))
+  | T 5 [fx; known; T _ ops] => T 0 (gtrace_v (to_zs known) (map dec_gwop ops) (ginit (nz fx)) [])     (* the translated viewer *)
   | _ => err (-2)
   end.
